@@ -727,7 +727,11 @@ class W3PostingsWriter(base.PostingsWriter):
         # the posting file
         if not self.written() and len(self) < self._inlinelimit:
             terminfo.add_block(self)
-            terminfo.set_inlined(self._ids, self._weights, self._values)
+            # Formats with no posting value (e.g. Existence) don't buffer any
+            # values; inline an empty byte string for each posting so a reader
+            # gets bytes back, the same as from a posting block
+            values = self._values or [emptybytes] * len(self._ids)
+            terminfo.set_inlined(self._ids, self._weights, values)
         else:
             # If there are leftover items in the current block, write them out
             if self._ids:
